@@ -89,6 +89,14 @@ def run(cx, chk):
         for q, (n, bad) in seen.items():
             if not bad:
                 chk.ob("C03.R7", "%s:%s" % (cfg, q), "typestate holds on %d own-key-miss paths" % n)
+    chk.rule("C03.R9", "one node per key: put_nonnull's map.insert may only meet a key that is in no other retained list (engine of C01.R4) - two nodes for one key leave an index key pointing into the other node")
+    chk.rule("C03.R10", "no safe signature hands out a reference or iterator that is not tied to the borrow of the cache (engine of C19.S1/S2): such a value outlives purge/drop and dereferences freed nodes")
+    from . import c01, c19
+    from .lib.report import Relabel
+    for cfg, F in cx.cfgs():
+        c01.r4(cx, Relabel(chk, {"C01.R4": "C03.R9"}), cfg, F)
+        items = c19.iterator_items(F)
+        c19.s1s2(Relabel(chk, {"C19.S1": "C03.R10", "C19.S2": "C03.R10"}), cfg, F, {h for h, o in items.items() if c19.has_mut_ref(o)})
     for cfg, F in cx.cfgs():
         got = drop_seen.get(cfg)
         if not got:
